@@ -323,6 +323,148 @@ def is_int_convert(path, full):
     return bool(_FROM_INT.match(full)) or full.startswith("<u") and "as std::convert::From<" in full and full.endswith(">::from")
 
 
+# ---------------------------------------------------------------- Result / Option combinators (closures are bodies of the crate)
+def _closure_call(ip, st, t, argi, argvals, transform):
+    """continue in the body of the closure passed as argument argi (tail call); None when it is not a closure of the crate"""
+    try:
+        cty = ip.types[ip.operand_ty(t["args"][argi])]
+    except Exception:
+        return None
+    while cty["k"] in ("ref", "ptr"):
+        cty = ip.types[cty["to"]]
+    if cty["k"] == "fndef":
+        key = cty.get("fn") or cty.get("path")
+        if key in ip.f.bodies:
+            return ("tailcall", key, list(argvals), transform)
+        return None
+    if cty["k"] != "closure" or cty.get("path") not in ip.f.bodies:
+        return None
+    body = ip.f.bodies[cty["path"]]
+    clos = t["_argvals"][argi]
+    envt = ip.types[body["locals"][1]["ty"]]
+    if envt["k"] == "ref" and not isinstance(clos, Ref):
+        tmp = ("tmpenv", st.count("tmpenv"))
+        st.mem[tmp] = clos
+        clos = Ref(tmp, ())
+    return ("tailcall", cty["path"], [clos] + list(argvals), transform)
+
+
+def _variants(full):
+    is_opt = "option::Option" in full.split("::<")[0] or full.startswith("std::option::Option") or full.startswith("core::option::Option")
+    return (SOME, NONE) if is_opt else (OK, ERR)
+
+
+def m_combinator(ip, st, fr, t, args):
+    path = t["callee"]["path"] or ""
+    name = path.split("::")[-1]
+    is_opt = path.startswith("std::option::Option") or path.startswith("core::option::Option")
+    good, bad = (SOME, NONE) if is_opt else (OK, ERR)
+    v = args[0]
+    if isinstance(v, Ref):
+        v = ip.read_loc(st, v.root, v.path)
+    if not isinstance(v, Enum):
+        return None
+    t = dict(t)
+    t["_argvals"] = args
+    payload = list(v.fields)
+    if name == "map":
+        if v.variant != good:
+            return v
+        return _closure_call(ip, st, t, 1, payload[:1], lambda s, r: Enum(good, [r]))
+    if name == "map_err" and not is_opt:
+        if v.variant == OK:
+            return v
+        return _closure_call(ip, st, t, 1, payload[:1], lambda s, r: Enum(ERR, [r]))
+    if name == "and_then":
+        if v.variant != good:
+            return v
+        return _closure_call(ip, st, t, 1, payload[:1], None)
+    if name == "or_else":
+        if v.variant == good:
+            return v
+        return _closure_call(ip, st, t, 1, payload[:1] if not is_opt else [], None)
+    if name == "unwrap_or":
+        return payload[0] if v.variant == good else args[1]
+    if name == "unwrap_or_else":
+        if v.variant == good:
+            return payload[0]
+        return _closure_call(ip, st, t, 1, payload[:1] if not is_opt else [], None)
+    if name == "ok" and not is_opt:
+        return Enum(SOME, payload[:1]) if v.variant == OK else Enum(NONE, [])
+    if name == "err" and not is_opt:
+        return Enum(SOME, payload[:1]) if v.variant == ERR else Enum(NONE, [])
+    if name == "ok_or" and is_opt:
+        return Enum(OK, payload[:1]) if v.variant == SOME else Enum(ERR, [args[1]])
+    if name == "ok_or_else" and is_opt:
+        if v.variant == SOME:
+            return Enum(OK, payload[:1])
+        return _closure_call(ip, st, t, 1, [], lambda s, r: Enum(ERR, [r]))
+    if name == "or" :
+        return v if v.variant == good else args[1]
+    if name == "and":
+        return args[1] if v.variant == good else v
+    if name == "map_or":
+        if v.variant != good:
+            return args[1]
+        return _closure_call(ip, st, t, 2, payload[:1], None)
+    if name in ("copied", "cloned") and is_opt:
+        if v.variant != SOME:
+            return v
+        p0 = payload[0]
+        if isinstance(p0, Ref):
+            p0 = ip.read_loc(st, p0.root, p0.path)
+        return Enum(SOME, [p0])
+    return None
+
+
+def is_combinator(path, full):
+    if not (path.startswith("std::result::Result::<T, E>::") or path.startswith("std::option::Option::<T>::") or
+            path.startswith("core::result::Result::<T, E>::") or path.startswith("core::option::Option::<T>::")):
+        return False
+    return path.split("::")[-1] in ("map", "map_err", "and_then", "or_else", "unwrap_or", "unwrap_or_else", "ok", "err", "ok_or", "ok_or_else", "or", "and", "map_or", "copied", "cloned")
+
+
+def m_bool_then(ip, st, fr, t, args):
+    c = args[0]
+    if not isinstance(c, Int):
+        return None
+    name = (t["callee"]["path"] or "").split("::")[-1]
+    cond = c.bits[0]
+    if name == "then_some":
+        return [(cond, Enum(SOME, [args[1]])), (bv.M.NOT(cond), Enum(NONE, []))]
+    return None
+
+
+def m_rangeincl_new(ip, st, fr, t, args):
+    if isinstance(args[0], Int) and isinstance(args[1], Int):
+        return Opaque("rangeincl", (args[0].bits, args[1].bits))
+    return None
+
+
+def m_range_contains(ip, st, fr, t, args):
+    r = args[0]
+    if isinstance(r, Ref):
+        r = ip.read_loc(st, r.root, r.path)
+    x = args[1]
+    if isinstance(x, Ref):
+        x = ip.read_loc(st, x.root, x.path)
+    if not isinstance(x, Int):
+        return None
+    full = t["callee"].get("full") or ""
+    signed = False
+    m = re.search(r"Range(?:Inclusive)?::<([iu])(\d+|size)>", full)
+    if m:
+        signed = m.group(1) == "i"
+    le = (lambda a, b: bv.M.NOT(bv.slt(b, a))) if signed else bv.ule
+    lt = bv.slt if signed else bv.ult
+    if isinstance(r, Opaque) and r.tag == "rangeincl" and r.data[0] is not None:
+        lo, hi = r.data[0], r.data[1]
+        return Int((bv.M.AND(le(lo, x.bits), le(x.bits, hi)),))
+    if isinstance(r, Agg) and len(r.fields) == 2 and all(isinstance(z, Int) for z in r.fields) and "RangeInclusive" not in full:
+        return Int((bv.M.AND(le(r.fields[0].bits, x.bits), lt(x.bits, r.fields[1].bits)),))
+    return None
+
+
 def is_range_index(path, full):
     return (path.endswith("::index") or path.endswith("::index_mut")) and ("ops::Range" in full) and ("[" in full or "Vec<" in full)
 
@@ -367,6 +509,10 @@ def standard_models():
         (lambda p, f: bool(_INT_TY.match(p or "")), int_method),
         (is_int_convert, m_int_convert),
         (is_range_index, m_range_index),
+        (is_combinator, m_combinator),
+        (lambda p, f: p in ("std::ops::RangeInclusive::<Idx>::new", "core::ops::RangeInclusive::<Idx>::new"), m_rangeincl_new),
+        (lambda p, f: p in ("std::ops::RangeInclusive::<Idx>::contains", "core::ops::RangeInclusive::<Idx>::contains", "std::ops::Range::<Idx>::contains", "core::ops::Range::<Idx>::contains"), m_range_contains),
+        (lambda p, f: p in ("core::bool::<impl bool>::then_some", "std::bool::<impl bool>::then_some"), m_bool_then),
         (lambda p, f: (p or "").startswith("core::fmt::rt::") or (p or "").startswith("std::fmt::Arguments") or (p or "").startswith("core::fmt::Arguments") or (p or "").startswith("std::fmt::rt::"), m_opaque("fmt")),
         (lambda p, f: (p or "").startswith("anyhow::__private::"), m_anyhow),
         (lambda p, f: (p or "").startswith("anyhow::context::<impl anyhow::Context<") and ((p or "").endswith("::with_context") or (p or "").endswith("::context")), m_identity0),
